@@ -13,7 +13,8 @@ IMPORTS_SRC = "From PV Require Import C01.Obs C01.Model C02.Model.\nFrom PV Requ
 SRC_TIE_SAMPLE = 1500
 SRC_THEOREMS = ["c02_source_loop_body_is_step_rm", "c02_source_loop_is_rm_loop", "c02_source_error_rate_is_model",
                 "c02_source_string_matching_is_model", "c02_source_error_rate_wrapper_is_model",
-                "c02_source_error_rate_counts_optimal_alignment"]
+                "c02_source_src_er_is_model", "c02_source_error_rate_counts_optimal_alignment",
+                "c02_source_error_rate_normalised"]
 
 
 def _eligible(c02, case, out):
